@@ -62,6 +62,7 @@ class ConfigId:
                 "This config does not contain its device settings name"
             )
         name = config[(0x620, 0x03)].decode() if (0x620, 0x03) in config else None
+        project: Optional[int] = 0
         try:
             customer = int.from_bytes(config[0x620, 0x01], "big")
             device = int.from_bytes(
@@ -69,13 +70,13 @@ class ConfigId:
             )
         except KeyError:
             # Does not correspond to Baltech Naming Scheme
-            customer = device = None
+            customer = device = project = None
             if not name:
                 raise MissingDeviceSettingsNameError(
                     "name is required if not corresponding to baltech naming "
                     "convention"
                 )
-        return cls(customer, 0000, device, version, name)
+        return cls(customer, project, device, version, name)
 
     @classmethod
     def create_from_str(cls, configname: str) -> "ConfigId":
